@@ -893,6 +893,7 @@ func main() {
 	locktable := flag.String("locktable", "", "output Lean lock table")
 	oracleOut := flag.String("oracle", "", "output Lean file: translated oracle kernels")
 	txnOut := flag.String("txn", "", "output Lean file: translated transaction decision logic")
+	wmOut := flag.String("wm", "", "output Lean file: translated watermark message handler")
 	flag.Parse()
 	if *locktable != "" {
 		genLockTable(*repo, *locktable)
@@ -905,6 +906,9 @@ func main() {
 	}
 	if *txnOut != "" {
 		genTxn(*repo, *txnOut)
+	}
+	if *wmOut != "" {
+		genWM(*repo, *wmOut)
 	}
 	if *skeleton != "" {
 		genSkeleton(*repo, *skeleton)
